@@ -101,9 +101,10 @@ _counter = itertools.count(1)
 
 
 def probe_args(k, n):
-    """(cls, args) of the probe term of kind k; operands are built without touching the stack."""
+    """(cls, args) of the probe term of kind k with token n: the same (k, n) gives the same class and the
+    same (cons-hashed) arguments, hence the same Memoize key; operands are built without touching the stack."""
     if k == "num":
-        return Binary, (ops.add, _reflect(Number, float(n), "real"), _reflect(Number, 3.0, "real"))
+        return Binary, (ops.add, _reflect(Number, float(n) + 0.5, "real"), _reflect(Number, 3.0, "real"))
     if k == "a":
         return MarkA, ("a%d" % n,)
     if k == "b":
@@ -136,6 +137,7 @@ class Canon:
         for n, o in USER_OBJ.items():
             self.names[id(o)] = n
         self.cache = {}     # id -> (obj kept alive, canon)
+        self.shared = {}    # id(dict) -> c for the current run's explicit cache dicts
 
     def one(self, o):
         i = id(o)
@@ -148,7 +150,8 @@ class Canon:
         elif isinstance(o, PrioritizedInterpretation):
             c = "[" + " ".join(self.one(s) for s in o.subinterpretations) + "]"
         elif isinstance(o, Memoize):
-            c = "memo(" + self.one(o.base_interpretation) + ")"
+            sh = self.shared.get(id(o.cache))
+            c = ("memo(" if sh is None else "memoS%d(" % sh) + self.one(o.base_interpretation) + ")"
         elif isinstance(o, AdjointTape):
             # `_old_interpretation` is assigned once per entry; tapes are never re-entered here
             return "tape(" + self.one(o._old_interpretation) + ")"
@@ -186,12 +189,15 @@ class RealRun:
         self.refused = 0     # blocks whose __enter__ raised
         self.shared_tape = None   # ctx "tapeR": one AdjointTape object re-entered sequentially
         self.funcs = {}           # name -> function decorated by ("def", name, ctx, body)
+        self.shared = {1: {}, 2: {}}   # the user's own dicts for memoize(cache=d): ctx "memoS1", "memoS2"
+        self.keep = []            # probe operands (kept alive so that cons-hashing returns the same objects)
         self.inv = inv       # probe kind -> {class name -> handler leaf}
 
     def run(self, prog):
         if not same(tuple(STACK), BASE):
             STACK[:] = list(BASE)
         CANON.cache.clear()
+        CANON.shared = {id(d): c for c, d in self.shared.items()}
         out = "normal"
         try:
             try:
@@ -219,6 +225,8 @@ class RealRun:
     def make_ctx(self, c):
         if c == "memoize":
             return FI.memoize()
+        if c in ("memoS1", "memoS2"):
+            return FI.memoize(self.shared[int(c[-1])])
         if c == "tape":
             return AdjointTape()
         if c == "tapeR":
@@ -241,7 +249,7 @@ class RealRun:
             if len(s) < len(BASE) or not same(s[:len(BASE)], BASE):
                 self.viol.append(("base-popped", CANON.stack(BASE), CANON.stack(s)))
         elif t == "probe":
-            self.probe(p[1], p[2])
+            self.probe(p[1], p[2], p[3])
         elif t == "seq":
             for q in p[1]:
                 self.ex(q)
@@ -249,7 +257,7 @@ class RealRun:
             before = tuple(STACK)
             try:
                 if p[1] == "subst" and p[2][0] == "probe" and p[2][1] == "S":
-                    self.substitute(p[2][2])       # the real call site: funsor.terms.substitute
+                    self.substitute(p[2][2], p[2][3])       # the real call site: funsor.terms.substitute
                 else:
                     cm = self.make_ctx(p[1])
                     entered = False
@@ -316,17 +324,21 @@ class RealRun:
             ok = raised or (r is SENT.get(name)) or (name == "subst" and r is SUBST_VALUE)
             self.obs.append("?%s=%s@%s" % (k, name if ok else "!" + name + "-but-result-" + repr(r), CANON.stack(st)))
         elif not ev:
+            hit = next((n for n, v in SENT.items() if r is v), None)
             if raised:
                 self.obs.append("?%s=!raised-without-rule@*" % k)
+            elif hit is not None:
+                # a harness rule's sentinel came back without the rule firing: a Memoize cache hit
+                self.obs.append("?%s=%s@cached" % (k, hit))
             else:
                 cn = type(r).__name__
                 self.obs.append("?%s=%s@*" % (k, self.inv.get(k, {}).get(cn, "!class:" + cn)))
         else:
             self.obs.append("?%s=!%d-firings:%s@*" % (k, len(ev), "+".join(n for n, _ in ev)))
 
-    def probe(self, k, armed):
-        n = next(_counter)
-        cls, args = probe_args(k, n)
+    def probe(self, k, armed, tok):
+        cls, args = probe_args(k, tok)
+        self.keep.append(args)
         before = tuple(STACK)
         del EVENTS[:]
         ARMED[0] = bool(armed)
@@ -343,10 +355,10 @@ class RealRun:
         finally:
             self.block_check("probe", before)
 
-    def substitute(self, armed):
-        n = next(_counter)
-        name = "s%d" % n
+    def substitute(self, armed, tok):
+        name = "s%d" % tok
         expr = _reflect(MarkS, name)
+        self.keep.append(expr)
         del EVENTS[:]
         ARMED[0] = bool(armed)
         r, raised = None, False
